@@ -195,9 +195,15 @@ func (m *model) apply(s step) {
 		if s.CM < len(m.cms) && m.cms[s.CM].ok && !m.cms[s.CM].closed {
 			c := m.cms[s.CM]
 			if m.codeGone[[2]int{m.engineOf(c.rt), c.spec}] {
+				// On this tree the instantiation fails ("source module must be compiled before
+				// instantiation"); whether it does is none of the model's business: the
+				// instance is treated as unknown (never used by later steps; the generator
+				// makes it anonymous so that it cannot take a name either).
 				m.labels["inst-after-sibling-code-closed"] = true
+				m.insts = append(m.insts, &mInst{impFrom: -1, globFrom: -1})
+			} else {
+				m.addInst(c.rt, c.spec, s.CM, s.Name)
 			}
-			m.addInst(c.rt, c.spec, s.CM, s.Name)
 		} else {
 			m.insts = append(m.insts, &mInst{impFrom: -1, globFrom: -1})
 		}
@@ -621,7 +627,9 @@ func genStep(t *rapid.T, m *model, excluded *int) (s step, ok bool) {
 			for _, nm := range instNames {
 				if nm == "" || !m.hasName(c.rt, nm) {
 					if m.codeGone[[2]int{m.engineOf(c.rt), c.spec}] {
-						goneOpts = append(goneOpts, instOpt{h, c.rt, c.spec, nm})
+						if nm == "" {
+							goneOpts = append(goneOpts, instOpt{h, c.rt, c.spec, nm})
+						}
 					} else {
 						instOpts = append(instOpts, instOpt{h, c.rt, c.spec, nm})
 					}
